@@ -41,85 +41,34 @@ Proof.
 Qed.
 
 (* ------------------------------------------------------------------ (b) propagation *)
-Theorem C01_propagation_partial_proof cfg w e n um : plain_env e = true ->
-  psources_rbind cfg (chain cfg (wo_fs w) n) = true ->
-  rclass_beq (v_res (mview cfg w e n um)) RFail = false ->
-  C01.propagation_ok (syscalls (v_log (mview cfg w e n um))) = true.
+Theorem C01_propagation_proof cfg w e n um : plain_env e = true ->
+  C01.propagation_ok (rclass_beq (v_res (mview cfg w e n um)) RFail)
+                     (syscalls (v_log (mview cfg w e n um))) = true.
 Proof.
-  intros He Hp Hr. destruct (mview_trace cfg w e n um He) as (stat & Ht & _ & Hf).
-  eapply propagation_of_trace; [exact Ht|exact Hp|].
-  intros ->. rewrite (Hf eq_refl) in Hr. discriminate.
-Qed.
-
-(* without the hypothesis on the result: either the calls are well paired, or the run failed
-   and they are well paired up to the last call (the one that failed) *)
-Theorem C01_propagation_or_failed_partial_proof cfg w e n um : plain_env e = true ->
-  psources_rbind cfg (chain cfg (wo_fs w) n) = true ->
-  C01.propagation_ok (syscalls (v_log (mview cfg w e n um))) = true
-  \/ (v_res (mview cfg w e n um) = RFail
-      /\ C01.propagation_ok (removelast (syscalls (v_log (mview cfg w e n um)))) = true).
-Proof.
-  intros He Hp. destruct (mview_trace cfg w e n um He) as (stat & Ht & _ & Hf).
-  destruct stat.
-  - left. eapply propagation_of_trace; [exact Ht|exact Hp|discriminate].
-  - left. eapply propagation_of_trace; [exact Ht|exact Hp|discriminate].
-  - right. split; [now apply Hf|]. eapply propagation_of_trace_failed; [exact Ht|exact Hp|reflexivity].
+  intros He. destruct (mview_trace cfg w e n um He) as (stat & Ht & _ & Hf).
+  eapply propagation_of_trace; [exact Ht|]. intros Hs. now rewrite (Hf Hs).
 Qed.
 
 (* ------------------------------------------------------------------ (c) only as needed *)
-(* no import of a derived layer is mounted on the build directory itself *)
-Definition no_root_import (c : cfgT) (ch : list layer) : bool :=
-  forallb (fun x => match l_base x with
-                    | [] => true
-                    | _ => forallb (fun em => em_overlay em || negb (beq (em_target em) (build_path c x)))
-                                   (expected_mounts c ch x)
-                    end) ch.
-
-Lemma clean_items_refresh D its :
-  (forall it, In it its -> it_refresh it = true /\ ~ In (it_tgt it) D) -> clean_items D its.
-Proof.
-  induction its as [|it r IH]; intros H; cbn [clean_items]; [exact I|].
-  destruct (H it (or_introl eq_refl)) as [Hr Hn]. rewrite Hr. split; [exact Hn|].
-  apply IH. intros it' Hi. apply H. now right.
-Qed.
-
-Lemma imp_items_refresh c m x it : In it (imp_items c m x) -> it_refresh it = true.
+Lemma imp_items_refresh c m x it : In it (imp_items c m x) -> it_imp it = true.
 Proof.
   unfold imp_items. destruct (expand_config_mounts c m x); [|intros []].
   intros H. apply in_map_iff in H as (y & <- & _). reflexivity.
 Qed.
 
 Lemma chain_layer_clean cfg f n : is_abs (c_layers cfg) = true ->
-  no_root_import cfg (chain cfg f n) = true ->
   Forall (layer_clean cfg (chain cfg f n)) (chain_items cfg f n).
 Proof.
-  intros Habs Hnr. unfold chain_items. apply Forall_forall. intros its Hits.
-  apply in_map_iff in Hits as (x & <- & Hx). split.
-  - unfold no_root_import in Hnr. rewrite forallb_forall in Hnr. specialize (Hnr x Hx).
-    destruct (items_expected cfg f n x Hx) as (rest & E & _).
-    unfold layer_items, ovl_items in *.
-    destruct (l_base x) as [|b0 br] eqn:Eb; cbn [app clean_items].
-    + apply clean_items_refresh. intros it Hit. split; [eapply imp_items_refresh; exact Hit|intros []].
-    + cbn [it_refresh it_tgt]. split; [intros []|].
-      apply clean_items_refresh. intros it Hit. pose proof (imp_items_refresh _ _ _ _ Hit) as Hr.
-      split; [exact Hr|]. intros [Heq|[]].
-      rewrite forallb_forall in Hnr. specialize (Hnr (item_em it)).
-      rewrite E in Hnr. cbn [map app] in Hnr.
-      assert (Hin : In (item_em it) (item_em (MkItem overlay (build_path cfg x) overlay
-                       (match lm_get (layers_on_disk cfg f) (b0 :: br) with
-                        | Some bl => ovl_data cfg bl x | None => [] end) false)
-                     :: map item_em (imp_items cfg (layers_on_disk cfg f) x) ++ rest)).
-      { right. apply in_or_app. left. now apply in_map. }
-      specialize (Hnr Hin). unfold item_em in Hnr. cbn [em_overlay em_target] in Hnr.
-      rewrite Hr, <- Heq, beq_refl in Hnr. discriminate.
-  - exists x. split; [exact Hx|]. now apply (chain_items_ok cfg f n).
+  intros Habs. unfold chain_items. apply Forall_forall. intros its Hits.
+  apply in_map_iff in Hits as (x & <- & Hx).
+  exists x. split; [exact Hx|]. now apply (chain_items_ok cfg f n).
 Qed.
 
-Theorem C01_only_needed_partial_proof cfg w e n um : plain_env e = true ->
+Theorem C01_only_needed_proof cfg w e n um : plain_env e = true ->
   wf_table (ks_tab (wo_ks w)) = true ->
   is_abs (c_layers cfg) = true ->
-  no_root_import cfg (chain cfg (wo_fs w) n) = true ->
-  replay_calls (wo_fs (v_after (mview cfg w e n um))) (wo_ks w)
+  forall f,
+  replay_calls f (wo_ks w)
     (syscalls (v_log (mview cfg w e n um)))
     (fun ks o =>
        match o with
@@ -131,8 +80,8 @@ Theorem C01_only_needed_partial_proof cfg w e n um : plain_env e = true ->
        | _ => true
        end) = true.
 Proof.
-  intros He Hw Habs Hnr. destruct (mview_trace cfg w e n um He) as (stat & Ht & _).
-  change (replay_calls (wo_fs (v_after (mview cfg w e n um))) (wo_ks w)
+  intros He Hw Habs f. destruct (mview_trace cfg w e n um He) as (stat & Ht & _).
+  change (replay_calls f (wo_ks w)
             (syscalls (v_log (mview cfg w e n um))) (Pc cfg (chain cfg (wo_fs w) n)) = true).
   eapply ltrace_needed; [exact Ht|exact Hw| |apply incl_refl].
   now apply chain_layer_clean.
@@ -188,7 +137,7 @@ Proof.
   eapply ltrace_wf; [exact Ht|exact Hw|apply chain_items_tys].
 Qed.
 
-(* ------------------------------------------------------------------ (d) second part: exactly one mount per mountpoint *)
+(* ------------------------------------------------------------------ (d) second part: the count per mountpoint *)
 (* no expected mountpoint lies strictly below the mountpoint of an rbind import (the copies of
    the source's submounts would land on it) *)
 Definition rbind_clear (c : cfgT) (ch : list layer) : bool :=
@@ -196,11 +145,10 @@ Definition rbind_clear (c : cfgT) (ch : list layer) : bool :=
              forallb (fun em2 => negb (prefixb (em_target em1 ++ [sl]) (em_target em2)))
                      (expected_chain_mounts c ch))
           (expected_chain_mounts c ch).
-(* nothing is stacked on an expected mountpoint beforehand *)
-Definition nostack0 (c : cfgT) (ch : list layer) (tab : list kline) : bool :=
-  forallb (fun em => (count_at tab (em_target em) <=? 1)%nat) (expected_chain_mounts c ch).
-Definition count_one (c : cfgT) (ch : list layer) (tab : list kline) : bool :=
-  forallb (fun em => (count_at tab (em_target em) =? 1)%nat) (expected_chain_mounts c ch).
+(* one mount, or as many as were stacked there before *)
+Definition count_post (c : cfgT) (ch : list layer) (tab0 tab : list kline) : bool :=
+  forallb (fun em => (count_at tab (em_target em) =? Nat.max 1 (count_at tab0 (em_target em)))%nat)
+          (expected_chain_mounts c ch).
 
 Lemma expected_is_items c f n : forall ch', incl ch' (chain c f n) ->
   Forall (fun x => expand_config_mounts c (layers_on_disk c f) x <> None) ch' ->
@@ -222,24 +170,21 @@ Qed.
 
 Theorem C01_post_count_partial_proof cfg w e n um : plain_env e = true ->
   wf_table (ks_tab (wo_ks w)) = true ->
-  is_abs (c_layers cfg) = true ->
-  no_root_import cfg (chain cfg (wo_fs w) n) = true ->
   rbind_clear cfg (chain cfg (wo_fs w) n) = true ->
-  nostack0 cfg (chain cfg (wo_fs w) n) (ks_tab (wo_ks w)) = true ->
   v_res (mview cfg w e n um) = ROk ->
-  count_one cfg (chain cfg (wo_fs w) n) (ks_tab (wo_ks (v_after (mview cfg w e n um)))) = true.
+  count_post cfg (chain cfg (wo_fs w) n) (ks_tab (wo_ks w))
+             (ks_tab (wo_ks (v_after (mview cfg w e n um)))) = true.
 Proof.
-  intros He Hw Habs Hnr Hrc Hns Hr.
+  intros He Hw Hrc Hr.
   pose proof (C01_post_mounted_proof cfg w e n um He Hw Hr) as Hm.
   destruct (mview_trace cfg w e n um He) as (stat & Ht & Hok & _).
   destruct (Hok Hr) as [-> Hex]. clear Hok.
-  pose proof (ltrace_g cfg _ _ _ _ _ _ Ht Hw (chain_layer_clean cfg (wo_fs w) n Habs Hnr)) as Hg.
+  pose proof (ltrace_g _ _ _ _ _ Ht Hw (chain_items_tys cfg (wo_fs w) n)) as Hg.
   set (ch := chain cfg (wo_fs w) n) in *.
   assert (Eexp : expected_chain_mounts cfg ch = map item_em (concat (chain_items cfg (wo_fs w) n))).
   { unfold expected_chain_mounts, chain_items. apply expected_is_items; [apply incl_refl|exact Hex]. }
   set (T := map em_target (expected_chain_mounts cfg ch)).
-  assert (Hle : forall t, In t T ->
-            (cntl (mps (wo_ks (v_after (mview cfg w e n um)))) t <= 1)%nat).
+  assert (Hinv : cinv T (mps (wo_ks w)) (wo_ks (v_after (mview cfg w e n um)))).
   { eapply gtrace_count; [exact Hg| |].
     - intros it t Hit Ht0 Hfl. unfold rbind_clear in Hrc. rewrite forallb_forall in Hrc.
       assert (Hem : In (item_em it) (expected_chain_mounts cfg ch)) by (rewrite Eexp; now apply in_map).
@@ -247,18 +192,16 @@ Proof.
       rewrite (mount_flags_rbind _ Hfl) in Hrc. cbn [negb orb] in Hrc.
       rewrite forallb_forall in Hrc. unfold T in Ht0. apply in_map_iff in Ht0 as (em2 & <- & Hem2).
       specialize (Hrc _ Hem2). now apply negb_true_iff in Hrc.
-    - intros t Ht0. unfold T in Ht0. apply in_map_iff in Ht0 as (em & <- & Hem).
-      unfold nostack0 in Hns. rewrite forallb_forall in Hns. specialize (Hns _ Hem).
-      unfold mps. rewrite <- count_at_cntl. lia. }
-  unfold count_one. apply forallb_forall. intros em Hem.
+    - intros t Ht0. now left. }
+  unfold count_post. apply forallb_forall. intros em Hem.
   assert (Ht0 : In (em_target em) T) by (unfold T; now apply in_map).
-  specialize (Hle _ Ht0). unfold mps in Hle. rewrite <- count_at_cntl in Hle.
+  specialize (Hinv _ Ht0). unfold mps in Hinv. rewrite <- !count_at_cntl in Hinv.
   assert (Hge : (1 <= count_at (ks_tab (wo_ks (v_after (mview cfg w e n um)))) (em_target em))%nat).
   { rewrite count_at_cntl. apply cntl_in. apply mounted_at_in.
     unfold all_mounted in Hm. rewrite forallb_forall in Hm.
     unfold expected_chain_mounts in Hem. apply in_flat_map in Hem as (x & Hx & Hemx).
     specialize (Hm x Hx). rewrite forallb_forall in Hm. now apply Hm. }
-  lia.
+  apply Nat.eqb_eq. clear - Hinv Hge. lia.
 Qed.
 
 (* ------------------------------------------------------------------ (d) third part: kind and source; mount_post *)
@@ -337,7 +280,7 @@ Lemma right_link c f n x it tab k :
 Proof.
   intros Hx Hit Hnc. set (m := layers_on_disk c f) in *.
   unfold right_it, item_em. cbn [em_overlay em_source em_fstype].
-  destruct (it_refresh it) eqn:Erf; [reflexivity|]. cbn [negb].
+  destruct (it_imp it) eqn:Erf; [reflexivity|]. cbn [negb].
   unfold layer_items in Hit. apply in_app_or in Hit as [Hit|Hit].
   2:{ apply imp_items_refresh in Hit. congruence. }
   unfold nocomma_paths in Hnc. rewrite forallb_forall in Hnc. specialize (Hnc x Hx).
@@ -369,10 +312,7 @@ Qed.
 
 Theorem C01_post_partial_proof cfg w e n um : plain_env e = true ->
   wf_table (ks_tab (wo_ks w)) = true ->
-  is_abs (c_layers cfg) = true ->
-  no_root_import cfg (chain cfg (wo_fs w) n) = true ->
   rbind_clear cfg (chain cfg (wo_fs w) n) = true ->
-  nostack0 cfg (chain cfg (wo_fs w) n) (ks_tab (wo_ks w)) = true ->
   pre_right cfg (wo_fs w) (chain cfg (wo_fs w) n) (ks_tab (wo_ks w)) = true ->
   nodup_targets cfg (chain cfg (wo_fs w) n) = true ->
   nocomma_paths cfg (layers_on_disk cfg (wo_fs w)) (chain cfg (wo_fs w) n) = true ->
@@ -380,14 +320,13 @@ Theorem C01_post_partial_proof cfg w e n um : plain_env e = true ->
   id_bound (wo_ks (v_after (mview cfg w e n um))) = true ->
   v_res (mview cfg w e n um) = ROk ->
   C01.mount_post cfg (wo_fs w) (layers_on_disk cfg (wo_fs w)) (chain cfg (wo_fs w) n)
-    (ks_tab (wo_ks (v_after (mview cfg w e n um)))) = true.
+    (ks_tab (wo_ks w)) (ks_tab (wo_ks (v_after (mview cfg w e n um)))) = true.
 Proof.
-  intros He Hw Habs Hnr Hrc Hns Hpr Hnd Hnc Hids Hbound Hr.
-  pose proof (C01_post_count_partial_proof cfg w e n um He Hw Habs Hnr Hrc Hns Hr) as Hcount.
-  pose proof (C01_post_mounted_proof cfg w e n um He Hw Hr) as Hm.
+  intros He Hw Hrc Hpr Hnd Hnc Hids Hbound Hr.
+  pose proof (C01_post_count_partial_proof cfg w e n um He Hw Hrc Hr) as Hcount.
   destruct (mview_trace cfg w e n um He) as (stat & Ht & Hok & _).
   destruct (Hok Hr) as [-> Hex]. clear Hok.
-  pose proof (ltrace_g cfg _ _ _ _ _ _ Ht Hw (chain_layer_clean cfg (wo_fs w) n Habs Hnr)) as Hg.
+  pose proof (ltrace_g _ _ _ _ _ Ht Hw (chain_items_tys cfg (wo_fs w) n)) as Hg.
   set (ch := chain cfg (wo_fs w) n) in *. set (m := layers_on_disk cfg (wo_fs w)) in *.
   set (w1 := v_after (mview cfg w e n um)) in *.
   assert (Eexp : expected_chain_mounts cfg ch = map item_em (concat (chain_items cfg (wo_fs w) n))).
@@ -403,8 +342,7 @@ Proof.
     intros it Hit Hin. destruct (in_chain_items _ _ _ _ Hit) as (x & Hx & Hitx). fold ch m in Hx, Hitx.
     apply mounted_at_in in Hin. unfold mounted_at in Hin.
     destruct (top_at (ks_tab (wo_ks w)) (it_tgt it)) as [k|] eqn:Etop; [|discriminate].
-    destruct (top_at_some _ _ _ Etop) as [Hk1 Hk2].
-    exists k. split; [exact Hk1|]. split; [exact Hk2|].
+    exists k. split; [reflexivity|].
     rewrite (right_link cfg (wo_fs w) n x it _ k Hx Hitx Hnc).
     unfold pre_right in Hpr. rewrite forallb_forall in Hpr. specialize (Hpr x Hx).
     rewrite forallb_forall in Hpr. specialize (Hpr _ (Hem_of x it Hx Hitx)).
@@ -426,23 +364,16 @@ Proof.
     unfold C01.mount_post. apply forallb_forall. intros x Hx. apply forallb_forall. intros em Hem.
     assert (Hemc : In em (expected_chain_mounts cfg ch)).
     { unfold expected_chain_mounts. apply in_flat_map. now exists x. }
-    unfold count_one in Hcount. rewrite forallb_forall in Hcount. pose proof (Hcount _ Hemc) as Hc1.
-    rewrite Hc1. cbn [andb]. apply Nat.eqb_eq in Hc1.
+    unfold count_post in Hcount. rewrite forallb_forall in Hcount. rewrite (Hcount _ Hemc). cbn [andb].
     destruct (items_expected cfg (wo_fs w) n x Hx) as (rest & E & Hrest).
     rewrite Forall_forall in Hex. rewrite (Hrest (Hex x Hx)), app_nil_r in E. fold ch m in E.
     rewrite E in Hem. apply in_map_iff in Hem as (it & <- & Hitx).
     assert (Hit : In it its).
     { unfold its, chain_items. apply in_concat. exists (layer_items cfg m x). split; [|exact Hitx].
       now apply in_map. }
-    destruct (Hall it Hit) as (k & Hk1 & Hk2 & Hk3). fold w1 in Hk1, Hk3.
-    cbn [item_em em_target] in Hc1 |- *.
-    destruct (top_at (ks_tab (wo_ks w1)) (it_tgt it)) as [k'|] eqn:Etop.
-    + destruct (top_at_some _ _ _ Etop) as [Hk1' Hk2'].
-      assert (k' = k) by (eapply count_one_unique; eassumption). subst k'.
-      rewrite (right_link cfg (wo_fs w) n x it _ k Hx Hitx Hnc) in Hk3. exact Hk3.
-    + exfalso. assert (Hmt : mounted_at (ks_tab (wo_ks w1)) (it_tgt it) = true).
-      { apply mounted_at_in. rewrite <- Hk2. now apply in_map. }
-      unfold mounted_at in Hmt. rewrite Etop in Hmt. discriminate.
+    destruct (Hall it Hit) as (k & Hk1 & Hk3). fold w1 in Hk1, Hk3.
+    cbn [item_em em_target]. rewrite Hk1.
+    rewrite (right_link cfg (wo_fs w) n x it _ k Hx Hitx Hnc) in Hk3. exact Hk3.
 Qed.
 
 (* ------------------------------------------------------------------ (e) idempotence *)
@@ -508,22 +439,19 @@ Proof.
 Qed.
 
 (* ------------------------------------------------------------------ the conjunction *)
-(* step_spec assembled from the parts; the second half of (d) -- mount_post itself -- stays a premise *)
+(* step_spec assembled from the parts; mount_post as a premise *)
 Theorem C01_model_given_post_proof cfg w e n um : plain_env e = true ->
   wf_table (ks_tab (wo_ks w)) = true ->
   is_abs (c_layers cfg) = true ->
-  no_root_import cfg (chain cfg (wo_fs w) n) = true ->
-  psources_rbind cfg (chain cfg (wo_fs w) n) = true ->
-  rclass_beq (v_res (mview cfg w e n um)) RFail = false ->
   (v_res (mview cfg w e n um) = ROk ->
    C01.mount_post cfg (wo_fs w) (layers_on_disk cfg (wo_fs w)) (chain cfg (wo_fs w) n)
-     (ks_tab (wo_ks (v_after (mview cfg w e n um)))) = true) ->
+     (ks_tab (wo_ks w)) (ks_tab (wo_ks (v_after (mview cfg w e n um)))) = true) ->
   C01.step_spec cfg w (mview cfg w e n um) = true.
 Proof.
-  intros He Hw Habs Hnr Hp Hrf Hpost.
+  intros He Hw Habs Hpost.
   pose proof (C01_order_proof cfg w e n um He) as Ha.
-  pose proof (C01_propagation_partial_proof cfg w e n um He Hp Hrf) as Hb.
-  pose proof (C01_only_needed_partial_proof cfg w e n um He Hw Habs Hnr) as Hc.
+  pose proof (C01_propagation_proof cfg w e n um He) as Hb.
+  pose proof (C01_only_needed_proof cfg w e n um He Hw Habs (wo_fs (v_after (mview cfg w e n um)))) as Hc.
   unfold C01.step_spec.
   assert (Hcmd : v_cmd (mview cfg w e n um) = CMount n).
   { unfold mview, view_of_model. destruct (run e cfg um (CMount n) (world_of w)). reflexivity. }
@@ -534,23 +462,30 @@ Proof.
   destruct (v_res (mview cfg w e n um)) eqn:Er; try reflexivity. now apply Hpost.
 Qed.
 
-(* everything together: under all the hypotheses, and unless the run failed, the whole predicate *)
+(* whenever the command does not succeed, the whole predicate holds outright *)
+Theorem C01_model_not_ok_proof cfg w e n um : plain_env e = true ->
+  wf_table (ks_tab (wo_ks w)) = true ->
+  is_abs (c_layers cfg) = true ->
+  rclass_beq (v_res (mview cfg w e n um)) ROk = false ->
+  C01.step_spec cfg w (mview cfg w e n um) = true.
+Proof.
+  intros He Hw Habs Hr. apply C01_model_given_post_proof; try assumption.
+  intros E. rewrite E in Hr. discriminate.
+Qed.
+
+(* everything together *)
 Theorem C01_model_partial_proof cfg w e n um : plain_env e = true ->
   wf_table (ks_tab (wo_ks w)) = true ->
   is_abs (c_layers cfg) = true ->
-  no_root_import cfg (chain cfg (wo_fs w) n) = true ->
-  psources_rbind cfg (chain cfg (wo_fs w) n) = true ->
   rbind_clear cfg (chain cfg (wo_fs w) n) = true ->
-  nostack0 cfg (chain cfg (wo_fs w) n) (ks_tab (wo_ks w)) = true ->
   pre_right cfg (wo_fs w) (chain cfg (wo_fs w) n) (ks_tab (wo_ks w)) = true ->
   nodup_targets cfg (chain cfg (wo_fs w) n) = true ->
   nocomma_paths cfg (layers_on_disk cfg (wo_fs w)) (chain cfg (wo_fs w) n) = true ->
   ids_ok (wo_ks w) = true ->
   id_bound (wo_ks (v_after (mview cfg w e n um))) = true ->
-  rclass_beq (v_res (mview cfg w e n um)) RFail = false ->
   C01.step_spec cfg w (mview cfg w e n um) = true.
 Proof.
-  intros He Hw Habs Hnr Hps Hrc Hns Hpr Hnd Hnc Hids Hb Hrf.
+  intros He Hw Habs Hrc Hpr Hnd Hnc Hids Hb.
   apply C01_model_given_post_proof; try assumption.
   intros Hr. now apply C01_post_partial_proof.
 Qed.
